@@ -250,7 +250,7 @@ Definition is_valid (k : rkind) (r : resp) : bool :=
 
 (* command_extended_status / service_extended_status *)
 Definition with_ext (status : text) (ext : option text) : text :=
-  match ext with Some (_ :: _ as e) => status ++ T " - " ++ e | _ => status end.
+  match ext with Some ((_ :: _) as e) => status ++ T " - " ++ e | _ => status end.
 Definition extended_status (k : rkind) (r : resp) (code : Z) : rm text :=
   match k with
   | KUnit | KRR =>
